@@ -27,8 +27,10 @@ func vC18Shapes(op string) (sa, sb []int) {
 		return []int{2}, []int{2, 3}
 	case "Inner", "Dot-vv":
 		return []int{3}, []int{3}
-	case "Outer":
+	case "Outer", "Outer-reuseF":
 		return []int{2}, []int{3}
+	case "Concat-rowvec":
+		return []int{1, 3}, []int{1, 3}
 	}
 	return []int{2, 3}, []int{2, 3}
 }
@@ -89,6 +91,77 @@ func vC18Run(op string, a, b *Dense) (interface{}, error) {
 		return Dot(a, b)
 	case "TensorMul":
 		return a.TensorMul(b, []int{1}, []int{0})
+	case "Norm-unordered":
+		return a.Norm(UnorderedNorm())
+	case "Norm-fro":
+		return a.Norm(FrobeniusNorm())
+	case "Norm2-axis":
+		return a.Norm(Norm(2), 1)
+	case "Norm1":
+		return a.Norm(Norm(1))
+	case "Outer-reuseF":
+		r := New(Of(Float64), WithShape(2, 3), AsFortran(nil))
+		return a.Outer(b, WithReuse(r))
+	case "Concat-rowvec":
+		return a.Concat(0, b)
+	// operations on private tensors (clones made by the goroutine itself) in every option mode: they may use the pools
+	case "Priv-AddReuse":
+		pa, pb := a.Clone().(*Dense), b.Clone().(*Dense)
+		r := New(Of(Float64), WithShape(2, 3))
+		return pa.Add(pb, WithReuse(r))
+	case "Priv-AddReuseReshape":
+		pa, pb := a.Clone().(*Dense), b.Clone().(*Dense)
+		r := New(Of(Float64), WithShape(3, 2))
+		return pa.Add(pb, WithReuse(r))
+	case "Priv-AddIncr":
+		pa, pb := a.Clone().(*Dense), b.Clone().(*Dense)
+		r := New(Of(Float64), WithShape(2, 3))
+		return pa.Add(pb, WithIncr(r))
+	case "Priv-AddUnsafe":
+		pa, pb := a.Clone().(*Dense), b.Clone().(*Dense)
+		return pa.Add(pb, UseUnsafe())
+	case "Priv-ScalarReuse":
+		pa := a.Clone().(*Dense)
+		r := New(Of(Float64), WithShape(3, 2))
+		return pa.MulScalar(2.0, true, WithReuse(r))
+	case "Priv-GtReuse":
+		pa, pb := a.Clone().(*Dense), b.Clone().(*Dense)
+		r := New(Of(Bool), WithShape(6))
+		return pa.Gt(pb, WithReuse(r))
+	case "Priv-T-UT":
+		pa := a.Clone().(*Dense)
+		if err := pa.T(); err != nil {
+			return nil, err
+		}
+		pa.UT()
+		return pa, nil
+	case "Priv-Transpose":
+		pa := a.Clone().(*Dense)
+		if err := pa.T(); err != nil {
+			return nil, err
+		}
+		return pa, pa.Transpose()
+	case "Priv-Reshape":
+		pa := a.Materialize().(*Dense)
+		if pa == a {
+			pa = a.Clone().(*Dense)
+		}
+		return pa, pa.Reshape(3, 2)
+	case "Priv-SetAt":
+		pa := a.Clone().(*Dense)
+		return pa, pa.SetAt(1.5, 0, 1)
+	case "Priv-SliceZero":
+		pa := a.Clone().(*Dense)
+		v, err := pa.Slice(S(0, 1))
+		if err != nil {
+			return nil, err
+		}
+		v.(*Dense).Zero()
+		return pa, nil
+	case "Priv-ReturnTensor":
+		pa := a.Clone().(*Dense)
+		ReturnTensor(pa)
+		return nil, nil
 	case "Clone":
 		return a.Clone(), nil
 	case "Materialize":
@@ -142,12 +215,18 @@ func vhC18Op() {
 	pan := vCatch(func() { _, err = vC18Run(op, a, b) })
 	_ = err
 	vReach("C18.Op")
-	vAssert(!pan, "no-panic")
+	// (a column-major destination with row-major operands ends in gonum's bad-leading-dimension panic: C16's finding)
+	vAssertKF(!pan, "no-panic", "KF-C16-matmul-mixed", op == "Outer-reuseF")
 	// whatever happened in between, the shared operands end as they started (metadata and every element)
-	vAssert(vIntsEq(a.Shape(), ash) && vIntsEq(a.Strides(), ast), "shared-a-metadata-unchanged")
+	// known finding: Outer into a column-major destination reshapes its operands in place and leaves them so when the
+	// product then fails
+	vAssertKF(vIntsEq(a.Shape(), ash) && vIntsEq(a.Strides(), ast), "shared-a-metadata-unchanged", "KF-C18-outer-colmajor", op == "Outer-reuseF")
 	// known finding: Dot(vector, matrix) transposes the matrix in place and undoes it with UT(), which also undoes a lazy
 	// transposition the caller had pending
-	vAssertKF(vIntsEq(b.Shape(), bsh) && vIntsEq(b.Strides(), bst), "shared-b-metadata-unchanged", "KF-C18-dot-vm", op == "Dot-vm" && vCfgStr("lb") == "T")
+	vAssertKF2(vIntsEq(b.Shape(), bsh) && vIntsEq(b.Strides(), bst), "shared-b-metadata-unchanged", "KF-C18-outer-colmajor", op == "Outer-reuseF", "KF-C18-dot-vm", op == "Dot-vm" && vCfgStr("lb") == "T")
+	if op == "Outer-reuseF" {
+		return // (operands left reshaped: their elements cannot be addressed with the original coordinates)
+	}
 	if vIntsEq(a.Shape(), ash) && vIntsEq(a.Strides(), ast) {
 		ga := vSnapshot[float64](a)
 		for k := range aw {
